@@ -10,9 +10,9 @@ for P in $PROPS; do
     NAME=$(basename $D); REST=${NAME#$P-}; N=${REST##*-}; TAG=${REST%$N}
     S=/tmp/seedstore-$$-; rm -rf $S$P; mkdir -p $S$P/SEEDED/$N
     cp $D/patch.diff $S$P/SEEDED/$N/; cp -r $D/demo $S$P/SEEDED/$N/demo; cp $D/README.agent.md $S$P/SEEDED/$N/README.md 2>/dev/null
-    KEEP=$(python3 -c "import json;m=json.load(open('$D/meta.json'));print(json.dumps({k:m[k] for k in m if k in ('rebased','note','needs_tier')}))" 2>/dev/null)
+    KEEP=$(python3 -c "import json;m=json.load(open('$D/meta.json'));print(json.dumps({k:m[k] for k in m if k in ('rebased','note','needs_tier','also_run')}))" 2>/dev/null)
     echo "######## $NAME"
-    SEED_SRC_PREFIX=$S SEED_TAG=$TAG SEEDCHECK_TIER=$(python3 -c "import json;print(json.load(open('$D/meta.json')).get('needs_tier','quick'))" 2>/dev/null || echo quick) ./seedcheck.sh $P $N
+    SEED_SRC_PREFIX=$S SEED_TAG=$TAG SEEDCHECK_TIER=$(python3 -c "import json;print(json.load(open('$D/meta.json')).get('needs_tier','quick'))" 2>/dev/null || echo quick) ./seedcheck.sh $P $N $(python3 -c "import json;print(' '.join(json.load(open('$D/meta.json')).get('also_run',[])))" 2>/dev/null)
     [ -n "$KEEP" ] && python3 - "$D/meta.json" "$KEEP" <<'PY'
 import json,sys
 m=json.load(open(sys.argv[1])); m.update(json.loads(sys.argv[2])); json.dump(m,open(sys.argv[1],'w'),indent=1)
